@@ -13,8 +13,11 @@ def corpus(rng, tier, shared):
         cases.append(('h%d' % i, lines)); kinds['api-history+save+load'] = kinds.get('api-history+save+load', 0) + 1
     for i in range(n):
         L = filegen.make_layout(rng); c = filegen.make_content(rng)
+        # integer-format files (header scale factor >= 0): a documented refusal as soon as there is a frame; every build must refuse alike
+        intfmt = rng.random() < 0.2
+        if intfmt: c['scale_bits'] = rng.choice([0x3f800000, 0x00000000, 0x3c23d70a, 0x42c80000])
         buf = bytearray(c3dspec.encode(L, c))
-        flagged = rng.random() < 0.3
+        flagged = (not intfmt) and rng.random() < 0.3
         if flagged:
             # inputs on which the byte assembly leaves what C++ defines: non-zero bytes in the reserved header blocks
             z = L['zeros']
@@ -23,7 +26,7 @@ def corpus(rng, tier, shared):
         name = 'f%d.c3d' % i; open(os.path.join(shared, name), 'wb').write(bytes(buf))
         cid = ('x%d' if flagged else 'f%d') % i
         cases.append((cid, ['loadx 0 ' + name, 'snap 0', 'save 0 %s_o.c3d' % cid, 'fsum %s_o.c3d' % cid]))
-        k = 'file-with-reserved-bytes (outside the defined domain)' if flagged else 'well-formed-file'
+        k = 'file-with-reserved-bytes (outside the defined domain)' if flagged else ('integer-format-file (refused when it holds frames)' if intfmt else 'well-formed-file')
         kinds[k] = kinds.get(k, 0) + 1
     return cases, kinds
 
